@@ -1,6 +1,6 @@
 CONSTANTS R = 2
   N = 1
-  Find = FALSE
+  Find = TRUE
   Relist = TRUE
   MaxRelist = 3
 SPECIFICATION Spec
